@@ -92,6 +92,16 @@ def run(chk, tier, seed):
             cur, seen = [], set()
     if cur:
         discs_.append(cur)
+    # entries that would escape under unchecked concatenation, placed at the first, a middle and the last catalogue position
+    esc = sorted({(c["dirc"], tuple(c["name"])) for c in cases if c["escapes"]})
+    rnd.shuffle(esc)
+    fillers = [(36, (102, 48 + i)) for i in range(4)]         # $.f0 .. $.f3
+    for k, e in enumerate(esc[: (60 if quick else 100000)]):
+        for posn in (0, 2, 4):
+            g = list(fillers)
+            g.insert(posn, e)
+            discs_.append(g)
+    chk.extra["escaping_names"] = len(esc)
     with common.Scratch("c12") as scratch:
         imgs = []
         for i, group in enumerate(discs_):
